@@ -115,7 +115,7 @@ PROPS["C08"] = {
 }
 
 DIRTY_ASSUME = [
-    "std::fs::metadata (graph::stat) is a trusted stub ASSUMED not to fail (a missing file is MTime::Missing, never an error); `a content change comes with an mtime change` and `nothing else writes the tree` are the property's own assumptions",
+    "graph::stat is verified over a trusted stat model (a path exists or not; if it does it has one modification time; std::fs::metadata ASSUMED to fail only with NotFound): the stamp IS the modification time, a missing file is MTime::Missing, never an error; `a content change comes with an mtime change` and `nothing else writes the tree` are the property's own assumptions",
     "the hasher is uninterpreted: DefaultHasher is modelled as the sequence of values fed to it (hfed) and finish() as an uninterpreted function hfinish of that sequence; so `equal hash <=> equal manifest` is exactly the no-collision assumption (2^-64), which no contract can remove",
     "R9 wrappers: Hash::hash / Hasher::write_u8 / finish / Option::as_deref; R10: derive(Default) for TerseHash replaced by the explicit impl; R18: `for .. in a.iter().chain(b)` split into two consecutive loops with the same body (Verus has no model of iter::Chain)",
     "GraphFiles::id_from_canonical (hash map) and canonicalize_path (uninterpreted function canon) are trusted stubs here; db::Writer::write_build is a stub here whose body is verified in unit db (its D8 width preconditions are not repeated)",
